@@ -35,7 +35,8 @@ Section CKTypes.
   | CRead (at_ : cattr) (a : nat)
   | CSens (y x : carg)
   | CUComp (y x : carg)
-  | CSetCorr (r : rform) (a : nat) (b : option carg).   (* core.set_correlation(r, z, arg2), z complex *)
+  | CSetCorr (r : rform) (a : nat) (b : option carg)    (* core.set_correlation(r, z, arg2), z complex *)
+  | CGetCorr (cov : bool) (a : nat) (b : option carg).  (* core.get_correlation / get_covariance (z, arg2), z complex *)
 
   Record cmeta := mkCM {
     cm_im : nat;                                   (* slot of the imaginary component *)
@@ -56,7 +57,7 @@ Arguments USeqBad {V}.
 Arguments CArgC {V}. Arguments CArgR {V}. Arguments CArgN {V}.
 Arguments CK {V}. Arguments CUcomplex {V}. Arguments CConstant {V}. Arguments CMultiple {V}.
 Arguments CUn {V}. Arguments CBin {V}. Arguments CResult {V}. Arguments CRead {V}.
-Arguments CSens {V}. Arguments CUComp {V}. Arguments CSetCorr {V}. Arguments RScalar {V}. Arguments RSeq {V}.
+Arguments CSens {V}. Arguments CUComp {V}. Arguments CSetCorr {V}. Arguments CGetCorr {V}. Arguments RScalar {V}. Arguments RSeq {V}.
 Arguments mkCM {V}. Arguments cm_im {V}. Arguments cm_label {V}. Arguments cm_elem {V}.
 Arguments cm_u {V}. Arguments cm_v {V}. Arguments cm_r {V}.
 Arguments CObj {V}. Arguments CAliasOf {V}. Arguments mkCS {V}. Arguments ks {V}. Arguments cobjs {V}. Arguments wacc {V}.
@@ -1133,6 +1134,57 @@ Section CKernel.
           end
       end.
 
+  (* ---------- UncertainComplex.get_correlation / get_covariance (lib.py 2698-2735, 2795-2829) ---------- *)
+  (* one argument: the float get_correlation_real(self.real, self.imag) -- looked up, NOT the cached self.r;
+     a real argument: (rr, 0.0, ir, 0.0); a complex argument: the four component pairs; a number: zeros.
+     Pure reads: no cache is filled. *)
+  Definition cget_corr (s : cstate) (cov : bool) (a : nat) (b : option (carg V)) : cstate * out :=
+    let g := if cov then get_covariance_real N (ks s) else get_correlation_real N (ks s) in
+    match get_cplx s a with
+    | Err e => cfail1 s e
+    | Ok (_, _, (_, ore), (_, oim)) =>
+        match b with
+        | None => match g ore oim with
+                  | Ok v => (kpush s SErr, OutVal v)
+                  | Err e => cfail1 s e
+                  end
+        | Some (CArgN _) => (kpush s SErr, out4 f0 f0 f0 f0)
+        | Some (CArgR ib) =>
+            match get_real N (ks s) ib with
+            | Err e => cfail1 s e
+            | Ok (_, x, _) =>
+                match g ore x with
+                | Err e => cfail1 s e
+                | Ok rr => match g oim x with
+                           | Err e => cfail1 s e
+                           | Ok ir => (kpush s SErr, out4 rr f0 ir f0)
+                           end
+                end
+            end
+        | Some (CArgC ib) =>
+            match get_cplx s ib with
+            | Err e => cfail1 s e
+            | Ok (_, _, (_, xre), (_, xim)) =>
+                match g ore xre with
+                | Err e => cfail1 s e
+                | Ok rr =>
+                    match g ore xim with
+                    | Err e => cfail1 s e
+                    | Ok ri =>
+                        match g oim xre with
+                        | Err e => cfail1 s e
+                        | Ok ir =>
+                            match g oim xim with
+                            | Err e => cfail1 s e
+                            | Ok ii => (kpush s SErr, out4 rr ri ir ii)
+                            end
+                        end
+                    end
+                end
+            end
+        end
+    end.
+
   (* ---------- the state machine ---------- *)
   Definition is_cplx_num (x : cnumv V) : bool := match x with NC _ _ => true | NR _ => false end.
 
@@ -1323,6 +1375,7 @@ Section CKernel.
     | CRead CR_r a => cread_r s a
     | CRead CR_df a => cread_df s a
     | CSetCorr r a b => cset_corr s r a b
+    | CGetCorr cov a b => cget_corr s cov a b
     | CSens y x => csens_step true s y x
     | CUComp y x => csens_step false s y x
     end.
